@@ -28,7 +28,7 @@ SHARD = 6
 
 
 def hashseeds(tier):
-    return [0] if tier == 'quick' else [0, 1, 2, 3]
+    return [0] if tier == 'quick' else [0, 1]       # the thorough tier is sized to finish within about 40 minutes
 
 
 def gen(rng, tier):
@@ -36,22 +36,22 @@ def gen(rng, tier):
     ps = []
     # F10 witness family: accept with a non-empty stack
     ps.append({'Q': ['q0', 'q1'], 'Sigma': ['a'], 'Gamma': ['x'], 'eps': '_', 'q0': 'q0', 'F': ['q1'], 'delta': [['q0', 'a', '_', 'q1', 'x']]})
-    for _ in range(130 if quick else 2500):
+    for _ in range(130 if quick else 800):
         gamma = rng.choice(['x', 'xy', 'x$', 'x@$'])
         kinds = rng.choice([None, ['push', 'pop', 'push'], ['push', 'pop', 'noop', 'replace'], ['push', 'noop']])
         p = G.random_pda(rng, rng.randint(1, 3), rng.choice(['a', 'ab']), gamma, rng.choice(['_', 'ε']), ntrans=rng.randint(1, 5), kinds=kinds, pfinal=0.5)
         # avoid pushing epsilon moves so that every closure is finite (exact references on both sides)
         p['delta'] = [t for t in p['delta'] if not (t[1] == p['eps'] and t[4] != p['eps'])]
         ps.append(p)
-    for _ in range(20 if quick else 300):
+    for _ in range(20 if quick else 100):
         p = G.random_pda(rng, rng.randint(1, 3), rng.choice(['a', 'ab']), 'xy', rng.choice(['_', 'ε']), ntrans=rng.randint(1, 4), kinds=['push', 'pop'])
         p['delta'] = [t for t in p['delta'] if not (t[1] == p['eps'] and t[4] != p['eps'])]
         p['F'] = rng.choice([[], list(p['Q']), p['Q'][:1]])
         ps.append(p)
-    rep = [G.replace_pda(rng) for _ in range(12 if quick else 150)]
+    rep = [G.replace_pda(rng) for _ in range(12 if quick else 50)]
     cases = [{'P': p, 'n': 3, 'cfg': len(p['Sigma']) <= 2 and i % 3 == 0, 'deep': False} for i, p in enumerate(rep)]
-    cases += [{'P': G.loop_exit_pda(rng), 'n': 4, 'cfg': True, 'deep': False} for _ in range(3 if quick else 30)]
-    cases += [{'P': G.drain_pda(rng), 'n': 4, 'cfg': i == 0, 'deep': False} for i in range(4 if quick else 40)]
+    cases += [{'P': G.loop_exit_pda(rng), 'n': 4, 'cfg': True, 'deep': False} for _ in range(3 if quick else 10)]
+    cases += [{'P': G.drain_pda(rng), 'n': 4, 'cfg': i == 0, 'deep': False} for i in range(4 if quick else 12)]
     for i, p in enumerate(ps):
         small = len(p['Q']) <= 2 and len(p['delta']) <= 3
         tiny = len(p['Q']) == 1 and len(p['delta']) <= 2 and len(p['F']) == 1 and all((t[2] == p['eps']) != (t[4] == p['eps']) for t in p['delta'])
